@@ -19,6 +19,7 @@ type MethodSpec struct {
 	Ctx      []CtxParam // context parameters
 	CtxFirst bool       // context parameters precede the source parameter
 	Err      bool       // second result: error
+	CtxRegex bool       // arg:context:regex ^ctx written on this method
 }
 
 type fieldSet struct {
